@@ -210,7 +210,7 @@ def inject_syn(rng, v, keys):
 
 
 import re as _re
-_NAME = _re.compile(r"^[A-Za-z_][A-Za-z0-9_.-]*$")
+_NAME = _re.compile(r"[A-Za-z_][A-Za-z0-9_.-]*\Z")       # \Z, not $: "on\n" is not a name
 
 
 def xml_keys_ok(tree):
